@@ -48,7 +48,7 @@ pub(crate) fn parse_directive(jsx_attr: &JSXAttr, is_component: bool) -> Directi
                 .trim_start_matches('-')
                 .split('_');
             (
-                splitted.next().unwrap_or(&*ident.sym).to_ascii_lowercase(),
+                lowercase_first(splitted.next().unwrap_or(&*ident.sym)),
                 // `_` suffixes are modifiers; an argument can only be given as `v-name:arg`
                 None,
                 splitted,
@@ -57,10 +57,7 @@ pub(crate) fn parse_directive(jsx_attr: &JSXAttr, is_component: bool) -> Directi
         JSXAttrName::JSXNamespacedName(JSXNamespacedName { ns, name, .. }) => {
             let mut splitted = name.sym.split('_');
             (
-                ns.sym
-                    .trim_start_matches('v')
-                    .trim_start_matches('-')
-                    .to_ascii_lowercase(),
+                lowercase_first(ns.sym.trim_start_matches('v').trim_start_matches('-')),
                 Some(splitted.next().unwrap_or(&*name.sym)),
                 splitted,
             )
@@ -142,6 +139,15 @@ pub(crate) fn parse_directive(jsx_attr: &JSXAttr, is_component: bool) -> Directi
         modifiers: modifiers.and_then(|modifiers| transform_modifiers(modifiers, false)),
         value,
     })
+}
+
+/// `FooBar` -> `fooBar`: only the first letter of a directive name is lower-cased.
+fn lowercase_first(name: &str) -> String {
+    let mut chars = name.chars();
+    match chars.next() {
+        Some(first) => first.to_ascii_lowercase().to_string() + chars.as_str(),
+        None => String::new(),
+    }
 }
 
 fn undefined() -> Expr {
